@@ -68,6 +68,11 @@ class A2:
         ev = Counter()
         calls = []
         blk = b.blocks[bi]
+        from .flow import in_debug_region
+        if in_debug_region(b, bi):
+            # evaluated for a debug_assert! only: release builds never run it, so whatever it mints or releases does not count
+            # (rule E5 reports effects placed there)
+            return ev, calls
         for si, s in enumerate(blk["stmts"]):
             if s["k"] != "assign":
                 continue
